@@ -4,6 +4,7 @@ import (
 	stdErrors "errors"
 
 	schema "github.com/jsightapi/jsight-schema-core"
+	"github.com/jsightapi/jsight-schema-core/kit"
 	"github.com/jsightapi/jsight-schema-core/notations/jschema"
 	"github.com/jsightapi/jsight-schema-core/notations/regex"
 
@@ -136,12 +137,26 @@ func (core *JApiCore) compileUserTypeWithAllDependencies(name string) error {
 	// Check user type is correct.
 	// We should do it here 'cause it will simplify further processing.
 	if err := currUT.Check(); err != nil {
-		return jschemaToJAPIError(err, dd.GetValue(name))
+		return jschemaToJAPIError(err, core.directiveOfIncorrectUserType(err, name))
 	}
 
 	core.userTypes.Set(name, currUT)
 
 	return nil
+}
+
+// directiveOfIncorrectUserType returns the directive an error of checking the
+// user type "name" belongs to. The check covers the user types added to the
+// checked one as well: an error found in one of them says so, and its index is
+// relative to the body of that type, not of the checked one.
+func (core *JApiCore) directiveOfIncorrectUserType(err error, name string) *directive.Directive {
+	var e kit.Error
+	if stdErrors.As(err, &e) && e.IncorrectUserType() != "" {
+		if d := core.rawUserTypes.GetValue(e.IncorrectUserType()); d != nil {
+			return d
+		}
+	}
+	return core.rawUserTypes.GetValue(name)
 }
 
 func (core *JApiCore) checkUserTypeDuringBuild(name string, ut schema.Schema) error {
